@@ -78,7 +78,8 @@ def chain_conform(v, wd, name, backend, behaviours, snapshots=True, max_failures
         args += ["--git", os.path.join(HARNESS, "gitwrap.sh")]
     import time as _t
     _t0 = _t.time()
-    run_harness(args, timeout=3000)
+    # git sequences take seconds each (dozens of git processes); leave room on a loaded machine
+    run_harness(args, timeout=max(3000, 150 * len(behaviours)) if git_wrap else 3000)
     log(f"[run] {name}: harness {_t.time() - _t0:.1f}s")
     tcfg = write_cfg(os.path.join(wd, name + ".trace.cfg"), {"WithSnapshots": snapshots},
                      spec="TSpec", invariants=["VersionInvariant"], postcondition="Accepted")
